@@ -141,10 +141,10 @@ PROPS["C08"] = dict(
 
 PROPS["C06"] = dict(
     pkg="./props/c06_bulkhead",
-    tests=[REGRESS(), T("TestBulkhead", (8, 400), (16, 8000))],
+    tests=[REGRESS(), T("TestBulkhead", (8, 400), (16, 8000)), T("TestBulkheadStampede", (2, 80), (4, 1500))],
     replay_reps=200,
     require_classes=["waited=true", "refused=true", "cancelled=true"],
-    rule="executions cancelled by CancelMe may run under a hand-written context.Context (own Done/Err, values delegated to a standard parent that is never cancelled); maxConcurrency 0..8 (0: a bulkhead that admits nothing); executions may carry a context deadline of 1 us .. 2 ms that expires while they wait for or hold a permit; (final phase, in half of the scenarios) with every permit held, 1..4 callers of the standalone AcquirePermit / AcquirePermitWithMaxWait are cancelled while they wait: each returns the context error without a permit, and exactly maxConcurrency permits are available afterwards. rapid-generated bulkhead scenarios: maxConcurrency 1..8, max wait in {0, 1 ms, 50 ms, 1 h}, 0..max permits taken through the standalone API, 2..24 (thorough: 64) concurrent executions (sync/async; bare or with the bulkhead inside retry / an always-firing timeout / a real hedge / a fallback, or outside a retry) in three roles (holders parked on a harness gate inside the function, burst executions, waiters submitted against a full bulkhead), and a generated order of harness actions (open a gate, cancel an execution's context while it waits for or holds a permit, take/release standalone permits); non-trivial = more executions than permits AND at least one waited for a permit, was refused, or was cancelled; distinct = the scenario",
+    rule="(TestBulkheadStampede) 4..8 persistent workers released together by a spin barrier for 200..1500 rounds, each trying to get in through TryAcquirePermit or a non-waiting execution: never more than maxConcurrency inside, all permits back afterwards; executions cancelled by CancelMe may run under a hand-written context.Context (own Done/Err, values delegated to a standard parent that is never cancelled); maxConcurrency 0..8 (0: a bulkhead that admits nothing); executions may carry a context deadline of 1 us .. 2 ms that expires while they wait for or hold a permit; (final phase, in half of the scenarios) with every permit held, 1..4 callers of the standalone AcquirePermit / AcquirePermitWithMaxWait are cancelled while they wait: each returns the context error without a permit, and exactly maxConcurrency permits are available afterwards. rapid-generated bulkhead scenarios: maxConcurrency 1..8, max wait in {0, 1 ms, 50 ms, 1 h}, 0..max permits taken through the standalone API, 2..24 (thorough: 64) concurrent executions (sync/async; bare or with the bulkhead inside retry / an always-firing timeout / a real hedge / a fallback, or outside a retry) in three roles (holders parked on a harness gate inside the function, burst executions, waiters submitted against a full bulkhead), and a generated order of harness actions (open a gate, cancel an execution's context while it waits for or holds a permit, take/release standalone permits); non-trivial = more executions than permits AND at least one waited for a permit, was refused, or was cancelled; distinct = the scenario",
     assumptions=["the in-flight meter counts function invocations between entry and exit, plus standalone permits counted conservatively, so it never over-estimates what holds a permit",
                  "a bulkhead enclosing a hedge policy is not generated (one permit then covers several attempts by design)",
                  "an execution still unfinished after 30 s is a violation only with evidence (a goroutine blocked in ReleasePermit, or a 1 h waiter stranded after all others finished); otherwise inconclusive"],
